@@ -16,14 +16,12 @@ RULE = ("All item trees root->(1..3 children drawn from frames A,B,C, sub-items 
         "replace-by-item, insert-frame, insert-item, insert-nothing} to the frames present x "
         "{None, PRUNE, insert, replace} on the frames that hooks insert; plus unwrap chains of "
         "length 0..5, 50, 150 and cycles. A case is non-trivial if at least one hook returns "
-        "non-None and it is inside the documented rules (no leaf before a frame, no depth-ambiguous "
-        "prune); distinct = distinct (tree, hook table).  state = distinct reference-queue "
+        "non-None and it is inside the documented rules (no leaf before a frame); a prune / replacement removes the run of following entries that lie at the frame's unwrapping depth or deeper, counted after everything has been unwrapped (so it reaches into later sibling items of the same unwrap result, and never past an entry of a shallower level); distinct = distinct (tree, hook table).  state = distinct reference-queue "
         "configuration, transition = one reference unwrap/elaborate step; every case's trace is "
         "replayed on the implementation.")
 ASSUMPTIONS = [
     "hook tables are static (a hook's answer does not depend on time)",
-    "cases where an irreducible non-frame precedes a frame, where None appears as a replacement item, or where "
-    "a prune's extent depends on how eagerly outer items were unwrapped are outside the documented rules and skipped (counted)",
+    "cases where an irreducible non-frame precedes a frame or where None appears as a replacement item are outside the documented rules and skipped (counted)",
     "the 100-step guard is checked at 50 (must succeed) and 150/cyclic (must error); 99..101 are left unconstrained",
 ]
 
@@ -192,10 +190,14 @@ def reference(case, stats=None, buggy_f7=False):
         k_depth = 0
         while k_depth < len(q) and q[k_depth][2] >= d:
             k_depth += 1
-        if k_tree != k_depth:
-            # the extent depends on how the implementation numbers depths / how eagerly it unwraps: undocumented
-            raise OutOfScope("ambiguous prune extent")
-        del q[:k_tree]
+        if k_tree != k_depth and stats is not None:
+            # sibling items of one unwrap result lie at the same depth: a prune issued inside the first also removes
+            # the frames of the later ones (they are what the earlier ones are busy with). The statement fixes the
+            # order - everything is unwrapped until only frames and leaves remain, THEN a frame's result edits the
+            # remainder - so the extent is the run of following entries at the frame's depth or deeper, whatever
+            # sub-item they came from. (Counted: these are the cases a lazily unwrapping implementation gets wrong.)
+            stats.sibling_prunes = getattr(stats, "sibling_prunes", 0) + 1
+        del q[:k_depth]
 
     q = unwrap_all(case["root"], 0, ())
     frames = []
@@ -434,6 +436,7 @@ def run(ctx):
             ctx.sample(case)
     ctx.counters["states"] = len(stats.states)
     ctx.counters["transitions"] = stats.transitions
+    ctx.counters["prunes_reaching_into_sibling_items"] = getattr(stats, "sibling_prunes", 0)
 
 
 def replay(case):
